@@ -164,7 +164,12 @@ class IsUniqueCheck(AbstractCheck):
         # Extract field names to check from rule.
         toky = generated_tokens(rule)
         after_comma = True
-        next_token = next(toky)
+        try:
+            next_token = next(toky)
+        except tokenize.TokenError as error:
+            raise errors.InterfaceError(
+                "cannot split rule %r into tokens: %s" % (rule, error.args[0]), self.location_of_rule
+            )
         unique_field_names = set()
         while not _tools.is_eof_token(next_token):
             token_type = next_token[0]
@@ -226,7 +231,12 @@ class DistinctCountCheck(AbstractCheck):
         super().__init__(description, rule, available_field_names, location)
 
         tokens = generated_tokens(rule)
-        first_token = next(tokens)
+        try:
+            first_token = next(tokens)
+        except tokenize.TokenError as error:
+            raise errors.InterfaceError(
+                "cannot split rule %r into tokens: %s" % (rule, error.args[0]), self.location_of_rule
+            )
 
         # Obtain and validate field to count.
         if first_token[0] != tokenize.NAME:
